@@ -818,11 +818,15 @@ impl ElementRaw {
             src_parent_locked.content.remove(idx);
         }
 
+        // the moved elements are now contained in the files of their new parent: a file set of their own
+        // could name files that do not contain the new parent
+        for (_, sub_elem) in move_element.elements_dfs() {
+            sub_elem.0.write().file_membership.clear();
+        }
+
         // set the parent of the new element to the current element
         let mut move_element_locked = move_element.0.write();
         move_element_locked.parent = ElementOrModel::Element(self_weak);
-        // the moved element is now contained in the files of its new parent
-        move_element_locked.file_membership.clear();
         let dest_path = if move_element_locked.is_identifiable() {
             let new_name = move_element_locked.make_unique_item_name(model, &dest_path_prefix)?;
             format!("{dest_path_prefix}/{new_name}")
